@@ -124,7 +124,7 @@ def verbatim_copiers(ctx):
 def rule_h_agree(ctx):
     R = RuleResult("H-agree", "every hash value and re-hashing closure handed to a split-table operation is derived from the hash builder of the same map "
                    "as the table (handles: their table and hash-builder fields are taken from one map; clone/clone_from: the builder that re-hashes the "
-                   "copied leftovers is the one stored in the result)")
+                   "copied leftovers is the one stored in the result); a re-hashing closure computes its result from the element it is handed")
     T = ctx.facts.types
     S = ctx.roles.S
     hf, hm = hash_fns(ctx), hasher_makers(ctx)
@@ -352,6 +352,37 @@ def rule_h_agree(ctx):
             _check_handle(ctx, R, hf, handle_pairs, adt, {pr})
     if n < 10:
         R.anchor("sites", "expected >= 10 hash/hasher arguments at split-table calls, found %d" % n)
+    # a re-hashing closure hashes the element it is handed: a closure of the crate of shape Fn(&T) -> u64 that is passed to a split-table operation
+    # and returns on some path must compute its result from its argument (`|x| hasher(&x.0)`), not hand back a captured value (`|_| hash`: every
+    # element moved during that call would be filed under the new key's hash).  The stub `|_| unreachable!()` never returns.
+    nre = 0
+    for b in ctx.facts.bodies.values():
+        for c in ctx.calls(b):
+            lc = c.local_callee()
+            if lc is None or b.is_cleanup(c.loc.bb) or "self_ty" not in lc.raw or T[lc.raw["self_ty"]].get("adt") != S:
+                continue
+            for cb in c.closure_args():
+                if cb.arg_count != 2 or T[cb.locals[0]["ty"]].get("s") != "u64" or not cb.return_blocks():
+                    continue
+                nre += 1
+                dep = False
+                for rb in cb.return_blocks():
+                    ret_op = {"k": "copy", "place": {"local": 0, "proj": [], "ty": cb.locals[0]["ty"]}}
+                    _, args_ = cb.slice_back(Loc(rb, len(cb.stmts(rb))), [ret_op])
+                    if 2 in args_:
+                        dep = True
+                if not dep:
+                    # hashed through a `&mut` state (`val.0.hash(&mut state); state.finish()`): the element is at least read by a call
+                    for x_ in ctx.calls(cb):
+                        for i_ in range(len(x_.args)):
+                            q_ = x_.arg_path(i_)
+                            if q_ is not None and q_.strip_refs().root == 2:
+                                dep = True
+                R.inst(fn=b.path, site=c.where(), rehasher=cb.path, verdict="ok: computed from the element" if dep else "VIOLATION")
+                if not dep:
+                    R.viol("%s:rehasher-ignores-element" % cb.path, c.where(), "the re-hashing closure %s handed to %s does not compute its result from the element it is "
+                           "given: elements moved or re-hashed during that call are filed under a hash that is not theirs" % (cb.path, lc.path))
+
     return R
 
 
